@@ -44,6 +44,9 @@ def main():
         elif prop == "C19":
             from . import check_c19
             rc = check_c19.run(prop, a.tier, seed)
+        elif prop == "C20":
+            from . import check_c20
+            rc = check_c20.run(prop, a.tier, seed)
         else:
             print("no check for %s" % prop)
             rc = 2
